@@ -241,6 +241,16 @@ def run(ctx, chk):
             fills = [e for e in p.calls("memset") if e.args[0] == inner[0].res and e.args[1][0] == "c"
                      and (e.args[1][1] & 0xFF) != 0 and e.args[2] == inner[0].args[0]]
             ok = bool(fills)
+            # ... and the region is laid out for the caller's own request: size, count * size, or a constant (the empty array) -
+            # not for a value "adjusted" on the way (a zero request rounded up to 1 moves the user pointer off the guard page)
+            req = inner[0].args[0]
+            if len(smal.params) == 1:
+                exact = req == ("arg", 0)
+            else:
+                exact = req[0] == "c" or (req[0] == "bin" and req[1] == "mul" and {req[2], req[3]} == {("arg", 0), ("arg", 1)})
+            chk.ob("R17.2", smal, "the guarded region is laid out for exactly the size the caller asked for", exact, loc=smal.loc(inner[0].iid),
+                   detail="" if exact else "_sodium_malloc is handed %s, not the caller's request: the region's last byte is no longer the last "
+                   "byte the caller may use" % T.show(req, smal), path=None if exact else p, key="R17.2 %s fill" % smal.sname)
             chk.ob("R17.2", smal, "returned region is filled with a non-zero constant over exactly the requested number of bytes", ok,
                    loc=smal.loc(p.end_iid), detail="" if ok else "no memset(result, non-zero constant, n) with n == %s, the size handed to "
                    "_sodium_malloc: part of the user region keeps the zeros of the fresh mapping" % T.show(inner[0].args[0], smal),
